@@ -96,7 +96,81 @@ close_code(nni_ws *ws)
 	return (u16) ((b0 << 8) | b1);
 }
 
-#ifdef PREPTX
+#ifdef SETHDR
+/* C20: the custom-header list behind NNG_OPT_WS_REQUEST_HEADERS / "ws:header:<name>" (ws_set_header, ws_set_header_ext) with
+ * the FAILK-th allocation of the call failing.  Two headers exist ("Aa: 1", "B: 2"); the call sets CASE 0: "aA" (the same
+ * name in other letter case: a replacement), CASE 1: "C" (a new header), CASE 2: "B" without stripping duplicates (added).
+ * A call that reports NNG_ENOMEM leaves the list exactly as it was; in every case each entry has a name and a value
+ * (the handshake code passes them to strlen / nni_strdup) and nothing leaks. */
+extern int env_alloc_fail_at, env_alloc_failed, env_alloc_live;
+#ifndef FAILK
+#define FAILK 0
+#endif
+static int
+streq(const char *a, const char *b)
+{
+	if (a == NULL || b == NULL)
+		return 0;
+	for (int i = 0; i < 8; i++) {
+		if (a[i] != b[i])
+			return 0;
+		if (a[i] == 0)
+			return 1;
+	}
+	return 0;
+}
+void
+harness(void)
+{
+	nni_list   l;
+	ws_header *h;
+	NNI_LIST_INIT(&l, ws_header, node);
+	CHECK(ws_set_header(&l, "Aa", "1") == 0 && ws_set_header(&l, "B", "2") == 0, "two headers set");
+	int live0         = env_alloc_live;
+	env_alloc_fail_at = env_alloc_count + FAILK;
+#if SETHDR == 0
+	int rv = ws_set_header(&l, "aA", "zz");
+#elif SETHDR == 1
+	int rv = ws_set_header(&l, "C", "zz");
+#else
+	int rv = ws_set_header_ext(&l, "B", "zz", false);
+#endif
+	CHECK(rv == 0 || rv == NNG_ENOMEM, "set header succeeds or reports NNG_ENOMEM");
+	CHECK((rv == NNG_ENOMEM) == (env_alloc_failed != 0), "NNG_ENOMEM exactly when one of the call's allocations failed");
+	int n = 0, a1 = 0, b2 = 0, azz = 0, czz = 0, bzz = 0;
+	NNI_LIST_FOREACH (&l, h) {
+		n++;
+		CHECK(h->name != NULL && h->value != NULL, "C20: every configured header keeps a name and a value (a later dial / accept passes them to strlen)");
+		a1 += streq(h->name, "Aa") && streq(h->value, "1");
+		b2 += streq(h->name, "B") && streq(h->value, "2");
+		azz += streq(h->name, "Aa") && streq(h->value, "zz");
+		czz += streq(h->name, "C") && streq(h->value, "zz");
+		bzz += streq(h->name, "B") && streq(h->value, "zz");
+	}
+	if (rv != 0) {
+		CHECK(n == 2 && a1 == 1 && b2 == 1, "C20: a header update that failed leaves the configured headers exactly as they were");
+		CHECK(env_alloc_live == live0, "C20: and leaks nothing");
+		WITNESS("failed cleanly");
+	} else {
+#if SETHDR == 0
+		CHECK(n == 2 && azz == 1 && b2 == 1 && a1 == 0, "a header set again (any letter case) replaces the old value");
+#elif SETHDR == 1
+		CHECK(n == 3 && a1 == 1 && b2 == 1 && czz == 1, "a new header is added");
+#else
+		CHECK(n == 3 && a1 == 1 && b2 == 1 && bzz == 1, "without duplicate stripping the header is added beside the old one");
+#endif
+		WITNESS("set");
+	}
+	while ((h = nni_list_first(&l)) != NULL) {
+		nni_list_remove(&l, h);
+		nni_strfree(h->name);
+		nni_strfree(h->value);
+		NNI_FREE_STRUCT(h);
+	}
+	CHECK(env_alloc_live == 0, "all memory returned");
+	WITNESS("end");
+}
+#elif defined(PREPTX)
 /* C16 (vi) / C01: everything nng emits is well-formed - ws_frame_prep_tx.
  * PREPTX 1: server role, ONE iov of SYMBOLIC length (0 .. 2^63), symbolic
  *           fragment size, stream/message mode, text/binary, first/continuation:
